@@ -17,11 +17,12 @@ def ll(defines=(), tag=''):
 def schemas(): return [0, 3, 10] if TIER == 'quick' else [0, 1, 2, 3, 7, 9, 10]      # 1.6.0, (1.7.1, 1.9.1,) 1.11.1, (1.15.0, 1.18.0 desktop,) 1.18.0 os
 def observer_names(): return ['v1 ' + v for v in api_common.OBSERVERS_V2.values()]
 def mutator_names(): return ['v1 ' + v for v in api_common.MUTATORS_V2.values()]
+common.register_models('abs_v1_text', lambda eng: api_common.install_abstract_v1(eng, rows_mode='one', sym_text=2))
 def jobs_c16(ck):
     out = []
     for op, name in sorted(api_common.OBSERVERS_V2.items()):
         for sc in schemas():
-            for mdl in ('abs_v1_one', 'abs_v1_any'):
+            for mdl in ('abs_v1_one', 'abs_v1_any', 'abs_v1_text'):
                 out.append(dict(harness='h_api_v1.cpp', ll=ll(), entry='h_op', params={'op': op, 'schema': sc, 'wide': 0, 'count': 3, 'gen': 1}, models=[mdl], known=ck.known, must_reach=['call'],
                                 hooks=('c16', 'HOOKS'), replay='none', allow_throw='none', other_property_kinds=UB, eng_opts={'max_paths': 3000}, label='v1 ' + name))
     return out
